@@ -57,8 +57,8 @@ Models == CASE Tier = "quick" -> ModelsVocab \cup ModelsQuick
             [] Tier = "damage-quick" -> ModelsDamage
             [] Tier = "damage-thorough" -> ModelsDamage \cup { m \in ModelsQuick : Len(m.frames) = 2 /\ m.frames[1].refs = << <<0,"P1">> >> /\ m.pdus[1].sigs = << <<1,"S_BOOL">> >> }
 
-Layouts == CASE Tier = "quick" -> {l \in [perm : {1, 4, 6}, inst : 1..2, sect : {1, 3}, split : 1..3, ws : {FALSE}] : (l.perm + l.inst + l.sect + l.split) % 3 = 0}
-             [] Tier = "thorough" -> [perm : 1..6, inst : 1..2, sect : 1..4, split : 1..3, ws : BOOLEAN]
+Layouts == CASE Tier = "quick" -> {l \in [perm : {1, 4, 6}, inst : 1..2, sect : {1, 3}, split : 1..4, ws : {FALSE}] : (l.perm + l.inst + l.sect + l.split) % 3 = 0}
+             [] Tier = "thorough" -> [perm : 1..6, inst : 1..2, sect : 1..4, split : 1..4, ws : BOOLEAN]
              [] Tier = "damage-quick" -> [perm : {1, 4}, inst : {1}, sect : {1, 3}, split : {1, 2}, ws : {FALSE}]
              [] Tier = "damage-thorough" -> [perm : {1, 4, 6}, inst : 1..2, sect : {1, 3}, split : 1..3, ws : BOOLEAN]
 
@@ -85,7 +85,8 @@ RPduInst(l, x) == <<SId("PDU-INSTANCE", "pi")>>
     \o <<E("PDU-INSTANCE")>> \o Ws(l)
 Opt(tag, o) == IF IsSome(o) THEN Leaf(tag, o[1]) ELSE <<>>
 RFrame(l, f) == <<SId("FRAME", f.id)>> \o Ws(l)
-    \o Perm3(l.perm, Leaf("SHORT-NAME", f.short_name) \o Leaf("BYTE-LENGTH", "1") \o Leaf("FRAME-TYPE", "OTHER"),
+    \o Perm3(l.perm, Leaf("SHORT-NAME", f.short_name) \o (IF l.inst = 2 THEN Leaf("DESC", "frame doc") ELSE <<>>)     \* a description on something that is not a PDU
+                        \o Leaf("BYTE-LENGTH", "1") \o Leaf("FRAME-TYPE", "OTHER"),
                      <<S("PDU-INSTANCES")>> \o Cat([i \in 1..Len(f.refs) |-> RPduInst(l, f.refs[i])]) \o <<E("PDU-INSTANCES")>>,
                      <<S("MANUFACTURER-EXTENSION")>> \o Opt("MESSAGE_TYPE", f.mtype) \o Opt("CONTEXT_ID", f.ctx)
                         \o Opt("MESSAGE_INFO", f.minfo) \o Opt("APPLICATION_ID", f.app) \o <<E("MANUFACTURER-EXTENSION")>>)
@@ -102,10 +103,13 @@ Sections(l, m) == CASE l.sect = 1 -> RPdus(l, m) \o RFrames(l, m) \o RSignals(l,
                     [] l.sect = 2 -> RFrames(l, m) \o RPdus(l, m) \o RCodings(l, m) \o RSignals(l, m)
                     [] l.sect = 3 -> RCodings(l, m) \o RSignals(l, m) \o RFrames(l, m) \o RPdus(l, m)
                     [] l.sect = 4 -> RSignals(l, m) \o RFrames(l, m) \o RCodings(l, m) \o RPdus(l, m)
+H(q, k) == LET c == (Len(q) + 1) \div 2 IN IF k = 1 THEN SubSeq(q, 1, c) ELSE SubSeq(q, c + 1, Len(q))
+Half(m, k) == [pdus |-> H(m.pdus, k), frames |-> H(m.frames, k), signals |-> H(m.signals, k), codings |-> H(m.codings, k)]
 Render(m, l) ==
   CASE l.split = 1 -> << Wrap(Sections(l, m)) >>
     [] l.split = 2 -> << Wrap(RPdus(l, m) \o RCodings(l, m)), Wrap(RSignals(l, m) \o RFrames(l, m)) >>
     [] l.split = 3 -> << Wrap(RFrames(l, m)), Wrap(RSignals(l, m)), Wrap(RCodings(l, m) \o RPdus(l, m)) >>
+    [] l.split = 4 -> << Wrap(Sections(l, Half(m, 1))), Wrap(Sections(l, Half(m, 2))) >>     \* every list cut in two: duplicates end up in different files
 
 \* ---------------------------------------------------------------- the intended model (statement of C11, declarative)
 SortedBySeq(xs) ==   \* xs ordered by sequence number, ties in document order
